@@ -30,7 +30,8 @@ REQUIRED = ["histories", "rounds:redraw", "rounds:continue", "append_checked", "
             "round_adds_card_before_already_selected", "round_without_change", "contest_full_hand_count", "style_on", "style_off",
             "p_decreased", "proved_carried_over", "fine_grained_histories", "histories_after_a_dry_run",
             "confirmed_earlier_and_risk_now_above_limit", "histories_starting_with_construction_time_bounds_in_the_tests",
-            "histories_through_the_point_where_the_clean_total_equals_N_t", "planning_call_from_assumed_rates_between_rounds"]
+            "histories_through_the_point_where_the_clean_total_equals_N_t", "planning_call_from_assumed_rates_between_rounds", "rounds:mixed",
+            "histories_in_which_a_contest_starts_in_a_later_round"]
 ASSUMPTIONS = ["the 'measured risk is non-increasing' clause is asserted for tests configured with random_order=True (the "
                "factories' setting); for random_order=False the overall value is the last history entry, so only the "
                "append clause and the kept confirmation are asserted there", "polling is only generated without style (the library gives it the whole sample); without style the sample "
@@ -48,7 +49,9 @@ def gen_rounds(rng, sim):
     avail = {cid: (sum(1 for c in sim.cvr_list if c.has_contest(cid)) if sim.use_style else len(sim.cvr_list)) for cid in cids}
     R = rng.randint(2, 5)
     cur = {cid: rng.randint(1, max(1, avail[cid] // 2)) for cid in cids}
-    pattern = rng.choice(("grow_all", "one_at_a_time", "late_grower", "no_change_round", "full_hand_count"))
+    pattern = rng.choice(("grow_all", "one_at_a_time", "late_grower", "no_change_round", "full_hand_count", "late_starter"))
+    if pattern == "late_starter" and sim.use_style and len(cids) >= 2:
+        cur[cids[-1]] = 0      # a contest whose audit starts in a later round (nothing drawn for it at first)
     rounds = [dict(cur)]
     for r in range(1, R):
         nxt = dict(cur)
@@ -176,7 +179,8 @@ def run_variant(es, rounds, variant, rec):
     sink = io.StringIO()
     for sizes in rounds:
         sim.set_sizes(sizes)
-        ok, idx = rec.guard(f"c10.call:consistent_sampling:{variant}", sim.draw, (list(prev) if (variant == "continue" and prev is not None) else None))
+        cont = variant == "continue" or (variant == "mixed" and len(hist) % 2 == 1)   # mixed: redraw, continue, redraw, ...
+        ok, idx = rec.guard(f"c10.call:consistent_sampling:{variant}", sim.draw, (list(prev) if (cont and prev is not None) else None))
         if not ok:
             return None, sim
         idx = [int(i) for i in idx]
@@ -186,13 +190,15 @@ def run_variant(es, rounds, variant, rec):
         m, c = ms
         data = {}
         with np.errstate(all="ignore"), contextlib.redirect_stdout(sink):
-            for cid, con in sim.contests.items():
+            # (a contest for which nothing has been drawn yet is not evaluated: it has no data and no threshold)
+            active = {cid: con for cid, con in sim.contests.items() if sizes.get(cid, 1) > 0}
+            for cid, con in active.items():
                 for name, asn in con.assertions.items():
                     ok, du = rec.guard("c10.call:mvrs_to_data", asn.mvrs_to_data, m, c)
                     if not ok:
                         return None, sim
                     data[(cid, name)] = [float(x) for x in du[0]]
-            ok, _ = rec.guard("c10.call:set_p_values", A.set_p_values, sim.contests, m, c)
+            ok, _ = rec.guard("c10.call:set_p_values", A.set_p_values, active, m, c)
             if not ok:
                 return None, sim
         pv = {(cid, name): (float(asn.p_value), bool(asn.proved)) for cid, con in sim.contests.items() for name, asn in con.assertions.items()}
@@ -241,8 +247,11 @@ def run_case(es, rec):
     if es.get("_tie_point"):
         rec.count("histories_through_the_point_where_the_clean_total_equals_N_t")
     rec.count("style_on" if sim0.use_style else "style_off")
+    if any(v == 0 for v in rounds[0].values()) and any(v > 0 for v in rounds[-1].values() if True) and \
+            any(rounds[0][c_] == 0 and rounds[-1][c_] > 0 for c_ in rounds[0]):
+        rec.count("histories_in_which_a_contest_starts_in_a_later_round")
     results = {}
-    for variant in ("redraw", "continue"):
+    for variant in ("redraw", "continue", "mixed"):
         hist, sim = run_variant(es, rounds, variant, rec)
         if hist is None:
             rec.case(es, nontrivial=False)
@@ -296,8 +305,9 @@ def run_case(es, rec):
         if variant == "redraw":
             styles = set(frozenset(c.votes) for c in sim.cvr_list if c.votes)
             nontrivial = sim.use_style and len(sim.contests) >= 2 and len(styles) >= 2 and added_before
-    # continue vs redraw
-    for r, (a, b) in enumerate(zip(results["redraw"], results["continue"])):
+    # continue vs redraw (and the history that alternates between the two)
+    for r, (a, b) in enumerate(list(zip(results["redraw"], results["continue"])) + list(zip(results["redraw"], results["mixed"]))):
+        r = r % len(results["redraw"])
         rec.count("continue_equals_redraw_checked")
         if set(a["sel"]) != set(b["sel"]):
             prev = results["continue"][r - 1]["sel"] if r else []
